@@ -14,6 +14,8 @@ git apply --check "$OUT/patch.diff" || { echo "VERDICT $ID: patch does not apply
 git apply "$OUT/patch.diff"
 mkdir -p "$(dirname "$DEST")"
 for f in "$OUT"/demo_*.rs; do cp "$f" "$(dirname "$DEST")/"; done
+# optional module registration for in-crate demos (demo_register.diff, demo_mod_line.diff, ...)
+for d in "$OUT"/demo_*.diff; do [ -f "$d" ] && git apply "$d"; done
 echo "=== demo with patch"; cargo test --offline $DEMOARGS 2>&1 | tail -25; DEMO_WITH=${PIPESTATUS[0]}
 echo "=== suite with patch"; cargo nextest run --workspace --no-fail-fast --offline 2>&1 | grep -E "^\s+(FAIL|SIGABRT|TIMEOUT)|Summary|tests run" | sort | uniq -c | tail -30
 git apply -R "$OUT/patch.diff"
